@@ -376,6 +376,13 @@ func (w *world) streaming(t *rt.Tape, trace bool, res *core.Result) *core.Result
 		}
 	}
 	prog, probe := stream.DrawProgram(t)
+	if !small && t.Choose(rt.SGen, 8) == 0 {
+		// arguments of 65 to 85 thousand bits: the labels of one argument span two 64Ki pages of the
+		// streaming garbler's wire table
+		src, pr := gen.MPCLLarge(t)
+		prog, probe = stream.Program{Name: "generated", Src: src}, pr
+		res.Reach["streaming.wide-arguments"]++
+	}
 	c := stream.Prepare(t, prog, probe)
 	if c.Discard != "" || small && (c.Circ.NumGates > 2000 || c.Circ.Inputs.Size() > 600) || c.Circ.NumGates > 50000 {
 		res.Discard = true
